@@ -250,6 +250,29 @@ def m_ioerr_into(ex, c, a, m):
     return ex.run_fn(ex.resolve('<VfsError as From<std::io::Error>>::from', a), a)
 
 
+@model(r'(OnceLock|OnceCell|LazyLock)::<.*?>::(new|get_or_init|get|set)(::<.*>)?')
+def m_oncelock(ex, c, a, m):
+    """std::sync::OnceLock / OnceCell as an Option cell (single-threaded contract: initialised at most once)"""
+    op = m.group(2)
+    if op == 'new':
+        if m.group(1) == 'LazyLock':
+            return Adt('LazyLock', None, [NONE(), a[0]])
+        return Adt('OnceLock', None, [NONE()])
+    cell = deref(a[0])
+    if op == 'get':
+        return Some(Ref(cell.fields, 0).field(0)) if cell.fields[0].variant == 'Some' else NONE()
+    if op == 'set':
+        if cell.fields[0].variant == 'Some':
+            return Err(a[1])
+        cell.fields[0] = Some(a[1])
+        return Ok(UNIT)
+    if cell.fields[0].variant != 'Some':
+        v = ex.call_closure(a[1], [])
+        if cell.fields[0].variant != 'Some':
+            cell.fields[0] = Some(v)
+    return Ref(cell.fields, 0).field(0)
+
+
 @model(r'(Result|Option)::<.*?>::(map_err|map|ok_or|ok_or_else|unwrap_or|unwrap_or_default|unwrap_or_else|is_some|is_none|is_ok|is_err|ok|err|and_then|as_ref|as_mut|take|cloned|copied|as_deref|or_else|map_or|is_some_and|or|and|iter|into_iter|flatten|filter|is_ok_and|is_err_and)(::<.*>)?')
 def m_combinators(ex, c, a, m):
     k, op = m.group(1), m.group(2)
